@@ -90,7 +90,7 @@ def named_registers(prog) -> set:
 VARS = ["R0", "R1", "R2", "R3", "M0", "Q0", "C0"]
 MORE_R = [f"R{i}" for i in range(4, 16)]
 ADDRS = [0, 1, 2, 5]
-LABEL_NAMES = ["L", "LOOP", "EXIT", "skip", "end_1", "A", "B2", "Lx", "again", "out", "Q0_done", "M0_loop", "R2D", "C3po", "Rx", "Mloop", "M0_", "R1_", "Q2_1", "C15_", "M0_0_"]
+LABEL_NAMES = ["L", "LOOP", "EXIT", "skip", "end_1", "A", "B2", "Lx", "again", "out", "Q0_done", "M0_loop", "R2D", "C3po", "Rx", "Mloop", "M0_", "R1_", "Q2_1", "C15_", "M0_0_", "r", "m", "q", "c", "q1"]
 
 
 @st.composite
